@@ -14,7 +14,103 @@ USERS = ["Alice", "Bob", "Carl", "Dana", "Eve", "Fay", "Gil", "FooBot", "Xbot", 
 
 
 # ----------------------------------------------------------------------------- generator
-def gen_case(rng, cid, tier="quick"):
+BULK_USERS = ["User %02d" % i for i in range(30)] + ["Tidybot", "CropBot", "Editor Ω", "Anne-Marie", "O'Neil"]
+
+
+def gen_bulk_case(rng, cid, tier="quick"):
+    """The SIZE dimension of the quantifier: a collection of ordinary size (8..45 articles quick, ..70 thorough, a
+    pool of 2..14 images shared between them, directly and through gallery templates) with up to 20 contributors
+    per page, fetched with SMALL result limits (rvlimit / api_result_limit in 1..5).  No single query is long
+    (a page's contributors / a block's image list need a handful of continuation rounds), the whole fetch needs
+    dozens to many hundreds of them, all on the same API client(s): whatever the client accumulates ACROSS queries
+    (counters, caches, the last continuation value, merged results) has run through hundreds of queries when the
+    later ones are made.  The collection's size is drawn log-uniformly so that every order of magnitude of the total
+    is met.  The metabook lists most articles in shuffled order (some through a redirect, some pinned, one or two
+    missing titles) so that contributor look-ups, image lists and description pages come late in the fetch too."""
+    top = 45 if tier == "quick" else 70
+    n_art = min(top, int(round(8 * (top / 8.0) ** rng.random())))
+    n_img = rng.randint(2, 14)
+    n_tpl = rng.randint(0, 3)
+    pool = BULK_USERS + USERS
+    u_lo = rng.randint(0, 6)
+    u_hi = rng.randint(max(4, u_lo), 20)
+    nrev = [rng.choice([1, 100, 5000])]
+
+    def rid():
+        nrev[0] += rng.randint(1, 3)
+        return nrev[0]
+
+    def users():
+        return rng.sample(pool, rng.randint(u_lo, u_hi)), rng.choice([0, 0, 1, 3, 12])
+
+    img_names = ["Pic %d.png" % i if i % 4 else "Píc %d.svg" % i for i in range(n_img)]
+    tpl_names = ["Gallery %d" % i for i in range(n_tpl)]
+    pages = []
+    word = [0]
+    for t in tpl_names:
+        u, a = users()
+        word[0] += 1
+        pages.append({"title": "Template:" + t, "ns": 10, "id": 0, "users": u, "anon": a,
+                      "revs": [{"revid": rid(), "words": ["g%d" % word[0]], "tpls": [],
+                                "imgs": rng.sample(img_names, min(n_img, rng.randint(1, 4)))}]})
+    art_titles = []
+    for i in range(n_art):
+        t = "Article %02d" % i
+        art_titles.append(t)
+        revs = []
+        for _ in range(rng.choice([1, 1, 1, 2])):
+            word[0] += 1
+            revs.append({"revid": rid(), "words": ["w%d" % word[0]],
+                         "tpls": rng.sample(tpl_names, min(n_tpl, rng.choice([0, 0, 1, 1, 2]))),
+                         "imgs": rng.sample(img_names, min(n_img, rng.choice([0, 1, 1, 2, 3, 6])))})
+        u, a = users()
+        pages.append({"title": t, "ns": 0, "id": 0, "revs": revs, "users": u, "anon": a})
+    redirs = []
+    for i in range(rng.choice([0, 0, 1, 2])):
+        t = "Red %d" % i
+        u, a = users()
+        pages.append({"title": t, "ns": 0, "id": 0, "users": u, "anon": a,
+                      "revs": [{"revid": rid(), "redirect": rng.choice(art_titles)}]})
+        redirs.append(t)
+    for n in img_names:
+        u, a = users()
+        word[0] += 1
+        pages.append({"title": "File:" + n, "ns": 6, "id": 0, "users": u, "anon": a, "file": rng.random() < 0.95,
+                      "revs": [{"revid": rid(), "words": ["desc%d" % word[0], "of", "image"], "tpls": [], "imgs": []}]})
+    rng.shuffle(pages)
+    for i, p in enumerate(pages):
+        p["id"] = 10 + 2 * i
+    wiki = {"pages": pages}
+    sw = c11_wiki.SynthWiki(wiki, {})
+    listed = rng.sample(art_titles, max(1, int(n_art * rng.choice([0.6, 0.8, 1.0, 1.0]))))
+    items = []
+    for t in listed:
+        r = rng.random()
+        if r < 0.12:
+            items.append({"title": t, "revision": rng.choice(sw.pages[t]["revs"])["revid"]})
+        else:
+            items.append({"title": t})
+    for t in redirs:
+        if rng.random() < 0.7:
+            items.insert(rng.randint(0, len(items)), {"title": t})
+    for i in range(rng.choice([0, 0, 1, 2])):
+        items.insert(rng.randint(0, len(items)), {"title": "Missing %d" % i})
+    reached = reached_through_redirects(sw, items)
+    items = [{"title": it["title"]} if it.get("revision") and it["title"] in reached else it for it in items]
+    if rng.random() < 0.3:
+        k = rng.randint(1, len(items))
+        items = items[:k] + ([{"chapter": "Part two", "items": items[k:]}] if items[k:] else [])
+    small = [1, 1, 1, 2, 2, 3, 5]
+    opts = {"req_limit": rng.choice([1, 2, 3, 5, 7, 15, 50]), "res_limit": rng.choice(small), "rvlimit": rng.choice(small),
+            "noimages": rng.random() < 0.1, "seed": rng.randint(0, 10 ** 9),
+            "latency": rng.choice(["yields"] * 5 + ["bykind"] * 3 + ["zero", "none", "none"]), "bulk": True,
+            "timeout": 900}      # seconds of real time the harness waits: ~1000 requests on a machine that may be busy
+    return {"id": cid, "wiki": wiki, "metabook": items, "opts": opts}
+
+
+def gen_case(rng, cid, tier="quick", bulk=None):
+    if bulk or (bulk is None and rng.random() < (0.02 if tier == "quick" else 0.03)):
+        return gen_bulk_case(rng, cid, tier)
     big = rng.random() < (0.15 if tier == "quick" else 0.25)
     n_art = rng.randint(1, 9 if big else 4)
     n_tpl = rng.randint(0, 6 if big else 3)
